@@ -406,10 +406,11 @@ Qed.
 Lemma g_peek_ge g : gNext g <= g_peek g.
 Proof. unfold g_peek. destruct (_ && _); lia. Qed.
 
-Lemma resetForRetry_keeps st rnd : keeps st (resetForRetry st rnd).
+Lemma resetForRetry_keeps T st rnd : Base T st -> keeps st (resetForRetry st rnd).
 Proof.
-  unfold resetForRetry. destruct (sInit st) as [si|]; [|apply keeps_frame; apply AF_panic].
-  fold retry_q.
+  intros B. destruct (sInit st) as [si|] eqn:Ei.
+  2:{ unfold resetForRetry. rewrite Ei. apply keeps_frame; apply AF_panic. }
+  rewrite (resetForRetry_eq st rnd si Ei). unfold retry_result, retry_folds.
   set (st2 := fold_left retry_q (h_list (spH si)) (st_bif st 0)).
   assert (A2 : AppFrame st st2).
   { eapply AF_trans; [apply AF_bif|]. apply AF_fold. intros s x. unfold retry_q. destruct (ackEliciting (snd x)); [apply AF_queue|apply AF_refl]. }
@@ -417,11 +418,13 @@ Proof.
   assert (A3 : AppFrame st st3).
   { eapply AF_trans; [exact A2|]. apply AF_fold. intros s x. unfold retry_q. destruct (ackEliciting (snd x)); [apply AF_queue|apply AF_refl]. }
   destruct A3 as [_ [Hg _]].
+  destruct (retry_app_space_spec T (spG (sApp st3)) rnd) as [_ [Ln [_ [Hge [Hsk _]]]]].
+  { rewrite Hg. apply (sw_gnext _ _ _ (b_app _ _ B)). }
+  set (na := retry_app_space (spG (sApp st3)) rnd) in *.
   split.
-  - intros _ p Hp. cbn in Hp. destruct Hp.
-  - intros p [Kp _]. unfold kept, gnext, below, appH in *.
-    cbn [sApp st_pto st_alarm st_spaces newSpace spG spH g_skipping g_newSkip gNext newHist hSkipped h_list hFirst hPackets plist].
-    rewrite Hg. pose proof (g_peek_ge (spG (sApp st))). split; [lia|right; intros x []].
+  - intros _ p Hp. unfold gnext, appH in *. cbn [sApp st_pto st_alarm st_spaces] in *. apply Hsk in Hp. lia.
+  - intros p [Kp _]. unfold kept, gnext, below, appH in *. cbn [sApp st_pto st_alarm st_spaces].
+    rewrite Hg in Hge. split; [lia|right]. rewrite Ln. intros x [].
 Qed.
 
 (** every op keeps the retention invariant *)
@@ -431,14 +434,14 @@ Proof.
   unfold step. rewrite (b_panic _ _ B). cbn [Z.eqb negb orb].
   destruct (op_valid st o) eqn:Ev; cbn [negb]; [|apply keeps_refl].
   destruct o as [l t la sfs fs size mtu probe rnd|l now delay rs|now rnd|l now|now rnd|now|n now|l now|l|now cs hb]; cbn [op_valid] in Ev.
-  - apply andb_prop in Ev as [Ev Hpr]. apply andb_prop in Ev as [Ev Hsz]. apply andb_prop in Ev as [Hlive Hl].
+  - apply andb_prop in Ev as [Ev Hnil]. apply andb_prop in Ev as [Ev Hpr]. apply andb_prop in Ev as [Ev Hsz]. apply andb_prop in Ev as [Hlive Hl].
     destruct (space_live_sget st l Hl Hlive) as [s Hs].
     pose proof (send_keeps T st orc l t la sfs fs size mtu probe rnd s B Hl Hs) as X.
     destruct (popPN st l rnd) as [st1 pn]. exact X.
   - pose proof (AF_receivedAck st orc rs l now) as X. destruct (receivedAck st orc rs l now) as [[st' a1] err]. apply keeps_frame. exact X.
   - apply (onTimeout_keeps T). exact G.
   - apply keeps_frame. apply AF_dropPackets.
-  - apply resetForRetry_keeps.
+  - apply (resetForRetry_keeps T). exact B.
   - apply keeps_frame. apply AF_migratedPath.
   - apply keeps_frame. apply AF_receivedBytes.
   - apply keeps_frame. apply AF_receivedPacket.
